@@ -61,8 +61,13 @@ func (v *vigil) BeginVigil() {
 }
 
 func (v *vigil) CeaseVigil() {
+	// The decrement and the broadcast happen under the condition's lock: otherwise a
+	// waiter that has just seen vigils > 0 but has not yet parked in cond.Wait() misses
+	// the broadcast and sleeps forever (lost wake-up).
+	v.cond.L.Lock()
 	atomic.AddInt64(&v.vigils, -1)
 	v.cond.Broadcast()
+	v.cond.L.Unlock()
 }
 
 func (v *vigil) HasActiveVigils() bool {
